@@ -514,11 +514,15 @@ func newLoadFactory() *loadFactory { return &loadFactory{} }
 func (*loadFactory) CreateNetworkInterface(int, int, string) (*tdaemon.ENI, []netip.Addr, []netip.Addr, error) {
 	return nil, nil, nil, fmt.Errorf("not used")
 }
-func (*loadFactory) AssignNIPv4(string, int, string) ([]netip.Addr, error) { return nil, fmt.Errorf("not used") }
-func (*loadFactory) AssignNIPv6(string, int, string) ([]netip.Addr, error) { return nil, fmt.Errorf("not used") }
-func (*loadFactory) UnAssignNIPv4(string, []netip.Addr, string) error      { return nil }
-func (*loadFactory) UnAssignNIPv6(string, []netip.Addr, string) error      { return nil }
-func (*loadFactory) DeleteNetworkInterface(string) error                   { return nil }
+func (*loadFactory) AssignNIPv4(string, int, string) ([]netip.Addr, error) {
+	return nil, fmt.Errorf("not used")
+}
+func (*loadFactory) AssignNIPv6(string, int, string) ([]netip.Addr, error) {
+	return nil, fmt.Errorf("not used")
+}
+func (*loadFactory) UnAssignNIPv4(string, []netip.Addr, string) error { return nil }
+func (*loadFactory) UnAssignNIPv6(string, []netip.Addr, string) error { return nil }
+func (*loadFactory) DeleteNetworkInterface(string) error              { return nil }
 func (*loadFactory) LoadNetworkInterface(string) ([]netip.Addr, []netip.Addr, error) {
 	return []netip.Addr{netip.MustParseAddr("10.0.0.4"), netip.MustParseAddr("10.0.0.5"), netip.MustParseAddr("10.0.0.6")}, []netip.Addr{netip.MustParseAddr("fd00::5")}, nil
 }
